@@ -9,25 +9,24 @@ namespace Sfx
 namespace DriverText
 open TextSpec
 
-def parseRes (form : String) : FromStr.ParseResult → String
-  | .error k => s!"E:{k}"
-  | .ok (v, o) =>
-    match form with
-    | "hook" | "overflowing" => s!"O:{v},{b01 o}"
-    | "plain" => if o then "E:3" else s!"O:{v}"
-    | "wrapping" => s!"O:{v}"
-    | _ => s!"O:{v}"
+def formOf (form : String) : FromStr.PForm :=
+  match form with
+  | "plain" => .plain
+  | "saturating" => .saturating
+  | "wrapping" => .wrapping
+  | _ => .overflowing        -- "hook", "overflowing"
 
-/-- model answer for a parse request; the saturating form needs the sign of the literal (`s.starts_with('-')`) -/
+def ansStr : FromStr.PAns → String
+  | .err k => s!"E:{k}"
+  | .val v => s!"O:{v}"
+  | .valFlag v o => s!"O:{v},{b01 o}"
+
+/-- model answer for a parse request: `FromStr.parse` (the form wrappers are part of the model) -/
 def parseModel (p : Profile) (L : Layout) (form : String) (radix : Nat) (bytes : List Nat) : Option String :=
-  (FromStr.fromStr L.signed L.n bytes radix L.intBits L.f).map fun o =>
+  (FromStr.parse L (formOf form) radix bytes).map fun o =>
     match o with
     | .panic => "P"
-    | .ok r d =>
-      if p = .chk && d then "P" else
-      match form, r with
-      | "saturating", .ok (v, ov) => if ov then s!"O:{if bytes.head? == some 45 then L.min else L.max}" else s!"O:{v}"
-      | _, r => parseRes form r
+    | .ok r d => if p = .chk && d then "P" else ansStr r
 
 /-- documented answer: `E:m` stands for "some error other than overflow" -/
 def parseSpec (L : Layout) (form : String) (radix : Nat) (bytes : List Nat) : String :=
